@@ -106,6 +106,9 @@ def discharge(obligations, timeout_ms=20000, fallbacks=True, nproc=None):
     tasks = []
     for i, ob in enumerate(obligations):
         try:
+            if ob.kind == 'cover':
+                tasks.append((i, ob.smt2(), min(timeout_ms, 5000), False))
+                continue
             tasks.append((i, ob.smt2(), timeout_ms, fallbacks))
         except Exception as e:
             ob.status, ob.output = 'error', 'serialisation: %r' % (e,)
@@ -119,4 +122,11 @@ def discharge(obligations, timeout_ms=20000, fallbacks=True, nproc=None):
             results = pool.map(solve_one, tasks, chunksize=1)
     for idx, status, backend, secs, model, out in results:
         ob = obligations[idx]
+        if ob.kind == 'cover':
+            # inverted reading: the hypotheses alone must NOT be refutable.  unsat => vacuous path (error);
+            # sat or unknown => fine (a quantified hypothesis set is rarely decided `sat`).
+            ob.seconds, ob.backend, ob.output = secs, backend, out
+            ob.status = 'vacuous' if status == 'proved' else 'proved'
+            ob.model = None
+            continue
         ob.status, ob.backend, ob.seconds, ob.model, ob.output = status, backend, secs, model, out
